@@ -16,6 +16,7 @@ CONSTANTS
   RhoLevels = 2
   RhoendScaleDrop = 0
   MaxRuns = 3
+  RhoDropAny = FALSE
   DefSoftSwap = FALSE
   DefTrialLost = FALSE
   DefX0EvalNum = FALSE
